@@ -274,6 +274,36 @@ def run(facts, chk, tier, only=None):
                    'Equal exactly when the observation count reaches min_count (0..7 x 9 observations); bloom word = w|f, test w&f==f; location < range',
                    evals=n, sample=dict(min_counts='0..7', observations=9))
 
+    # ---------------------------------------------------------------- the counter is keyed by the full hash
+    def key():
+        b = facts.fn(KF + '::filter')
+        eb = ExprBuilder(b)
+        ent = [(bb, t) for bb, t in b.calls() if (t.callee.name or '').endswith('HashMap::entry')]
+        bl = [(bb, t) for bb, t in b.calls() if (t.callee.name or '').endswith('bloom_add_and_check')]
+        if len(ent) != 1 or len(bl) != 2:
+            raise AnchorLost('KmerFilter::filter: %d entry calls, %d bloom calls' % (len(ent), len(bl)))
+        ke = eb.operand(ent[0][1].args[1])
+        full = ke[0] == 'call' and ke[1].endswith('SplitKmer::get_hash')
+        kty = [f['ty'] for f in facts.adt(KF)['variants'][0]['fields'] if f['name'] == 'counts'][0]
+        ty_ok = 'HashMap<u64,' in kty.replace(' ', '') or 'HashMap<u64, u16>' in kty
+        blooms = [eb.operand(t.args[1]) for _, t in bl]
+        bloom_ok = all(x[0] == 'call' and x[1].endswith('SplitKmer::get_hash') for x in blooms)
+        # inside bloom_add_and_check: fingerprint and location are taken from the same, unmodified key
+        ba = facts.fn(KF + '::bloom_add_and_check')
+        eba = ExprBuilder(ba)
+        fp = [eba.operand(t.args[0]) for _, t in ba.calls() if (t.callee.name or '').endswith('::fingerprint')]
+        lc = [eba.operand(t.args[0]) for _, t in ba.calls() if (t.callee.name or '').endswith('::location')]
+        same_key = len(fp) == 1 and len(lc) == 1 and fp[0] == lc[0] == ('arg', 2, 'key')
+        return full and ty_ok, bloom_ok and same_key, show(ke), kty
+    r = chk.guard('C12.count', 'C12.count:key', key)
+    if r is not None:
+        okk, okb, ke, kty = r
+        if okk and okb:
+            chk.ok('C12.count', 'C12.count:key', KF + '::filter', 'count table (%s) keyed by the full 64-bit hash %s; bloom word and fingerprint from the same key' % (kty, ke))
+        else:
+            chk.violation('C12.count', 'C12.count:key', where=KF + '::filter',
+                          detail='the count table must be keyed by the full 64-bit k-mer hash (distinct k-mers must not share a counter beyond hash collisions): key=%s, table type %s, bloom keys ok=%s' % (ke, kty, okb))
+
     # ---------------------------------------------------------------- life cycle
     def life():
         res = []
